@@ -3,19 +3,59 @@ from harness.props._engine_common import make
 GEN = ["Engine", "Stale"]
 
 
+def implied_dependency_cases(only=None):
+    """An explicit `add_dependency(S, T)` that a path S -> M -> T already implies is not redundant: when M is a stored value
+    that is up to date, the path is cut (T reads M from its store) and only the explicit edge still says that T waits for S.
+    S is a call without a store (a side effect T relies on); second run after T's value was dropped / T requested afresh."""
+    import uberjob
+    from harness import cache_explore as ce
+    viol, done = [], 0
+    for t_stored in (True, False):
+        for workers in (1, 3):
+            if only and [t_stored, workers] != list(only):
+                continue
+            env = ce.Env()
+            log = []
+            plan, reg = uberjob.Plan(), uberjob.Registry()
+            s = plan.call(lambda: log.append("S") or "s")
+            m = plan.call(lambda v: log.append("M") or ("m", v), s)
+            ms = ce.MemStore("m", env)
+            reg.add(m, ms)
+            t = plan.call(lambda v: log.append("T") or ("t", v), m)
+            ts = ce.MemStore("t", env)
+            if t_stored:
+                reg.add(t, ts)
+            plan.add_dependency(s, t)                      # implied by s -> m -> t at this moment
+            uberjob.run(plan, registry=reg, output=t, max_workers=workers, progress=None)
+            ts.value, ts.mtime = None, None                # T has to be produced again; M stays up to date
+            del log[:]
+            uberjob.run(plan, registry=reg, output=t, max_workers=workers, progress=None)
+            done += 1
+            if log != ["S", "T"]:
+                viol.append({"property": "C01", "what": f"second run (stored M up to date, T {'stored, missing' if t_stored else 'not stored'}, "
+                             f"{workers} worker(s)) executed {log}; T depends on S explicitly: expected ['S', 'T']",
+                             "replay_fn": "implied-dependency", "dep_case": [t_stored, workers]})
+    return viol, done
+
+
 def extras(ctx, replay=None):
     """C01 with a registry: histories of real runs on in-memory stores; in every run a call that starts has seen every call
     without a store that it depends on directly return, in this run (cache_explore, property "C01")"""
     from harness import cache_explore as ce
     if replay is not None:
+        if replay.get("replay_fn") == "implied-dependency":
+            v, _ = implied_dependency_cases(only=replay["dep_case"])
+            return v[0]["what"] if v else None
         if "spec" in replay and "hseed" in replay:
             return ce.replay_cache(ctx, replay, {"C01"})
         return None
     h = ce.explore_cache(ctx, {"C01"}, 80 if ctx.tier == "quick" else 1500, steps=5)
     for v in h["violations"]:
         v.setdefault("replay_fn", "cache-history")
-    return {"violations": h["violations"], "disagreements": h["disagreements"],
-            "coverage": {"registry_histories": h["coverage"].get("histories", 0), "registry_runs_ok": h["coverage"].get("runs_ok", 0)}}
+    v2, n2 = implied_dependency_cases()
+    return {"violations": h["violations"] + v2, "disagreements": h["disagreements"],
+            "coverage": {"registry_histories": h["coverage"].get("histories", 0), "registry_runs_ok": h["coverage"].get("runs_ok", 0),
+                         "implied_dependency_cases": n2}}
 
 
 explore, search, replay = make({"C01"}, extra=extras)
